@@ -46,6 +46,10 @@ fn exec(sc: &Scenario) -> Report {
             ProgressDrawTarget::term_like(Box::new(term.clone()))
         };
         let multi = sc.c("multi") == 1;
+        // (one bar in four has no length to begin with)
+        let len0: Option<u64> = if sc.c("no_len") == 1 { None } else { Some(1_000_000) };
+        let mut len: Option<u64> = len0;
+        let mut prefix = String::new();
         // sibling bars above the bar under test: finished and dropped in any order during the
         // run (dropped bars wait at the head of the MultiProgress to be reaped by a later draw)
         let mut sibs: Vec<Option<ProgressBar>> = vec![];
@@ -56,12 +60,12 @@ fn exec(sc: &Scenario) -> Report {
                 sb.set_style(ProgressStyle::with_template(&format!("sib{k}")).unwrap());
                 sibs.push(Some(sb.with_finish(indicatif::ProgressFinish::AndLeave)));
             }
-            let pb = mp.add(ProgressBar::with_draw_target(Some(1_000_000), ProgressDrawTarget::hidden()));
+            let pb = mp.add(ProgressBar::with_draw_target(len0, ProgressDrawTarget::hidden()));
             (pb, Some(mp))
         } else {
-            (ProgressBar::with_draw_target(Some(1_000_000), target), None)
+            (ProgressBar::with_draw_target(len0, target), None)
         };
-        pb.set_style(ProgressStyle::with_template("{pos}|{msg}").unwrap());
+        pb.set_style(ProgressStyle::with_template("{pos}|{msg}|{prefix}|{len}").unwrap());
         // paint timestamps (ns) of frames caused by ordinary requests, by position requests, all
         let mut ordinary: Vec<u64> = vec![];
         let mut position_frames: Vec<u64> = vec![];
@@ -84,8 +88,37 @@ fn exec(sc: &Scenario) -> Report {
                 // through the position bucket)
                 "update" => call(|| pb.update(|_| {})),
                 "finish_clear" => {
-                    pos = 1_000_000; // finish_and_clear() moves the position to the length
+                    // finish_and_clear() moves the position to the length (if there is one)
+                    if let Some(l) = len {
+                        pos = l;
+                    }
                     call(|| pb.finish_and_clear())
+                }
+                // the other setters are ordinary redraw requests as well
+                "set_prefix" => {
+                    prefix = format!("p{i}");
+                    let m = prefix.clone();
+                    call(|| pb.set_prefix(m))
+                }
+                "set_length" => {
+                    len = Some(op.n0());
+                    call(|| pb.set_length(op.n0()))
+                }
+                "inc_length" => {
+                    len = len.map(|l| l.saturating_add(op.n0()));
+                    call(|| pb.inc_length(op.n0()))
+                }
+                "dec_length" => {
+                    len = len.map(|l| l.saturating_sub(op.n0()));
+                    call(|| pb.dec_length(op.n0()))
+                }
+                "unset_length" => {
+                    len = None;
+                    call(|| pb.unset_length())
+                }
+                "dec" => {
+                    pos = pos.wrapping_sub(op.n0());
+                    call(|| pb.dec(op.n0()))
                 }
                 "set_message" => {
                     msg = format!("m{i}");
@@ -135,8 +168,8 @@ fn exec(sc: &Scenario) -> Report {
             let forced = matches!(op.k.as_str(), "println" | "force_draw" | "mp_println" | "mp_clear" | "sib_finish" | "sib_drop" | "finish_clear");
             // (finishing / dropping a sibling and clearing paint forced frames, or none at all)
             let may_not_paint = matches!(op.k.as_str(), "mp_clear" | "sib_finish" | "sib_drop" | "finish_clear");
-            let direct = matches!(op.k.as_str(), "tick" | "set_message" | "reset" | "update");
-            let positional = matches!(op.k.as_str(), "inc" | "set_position");
+            let direct = matches!(op.k.as_str(), "tick" | "set_message" | "reset" | "update" | "set_prefix" | "set_length" | "inc_length" | "dec_length" | "unset_length");
+            let positional = matches!(op.k.as_str(), "inc" | "set_position" | "dec");
             if forced && !painted && !may_not_paint && !(op.k == "mp_println" && mp.is_none()) {
                 r.violate("C05.forced_paint", format!("{at}: a forced request painted nothing"));
                 break;
@@ -170,9 +203,9 @@ fn exec(sc: &Scenario) -> Report {
                 }
                 last_paint = Some(now);
                 // (5) nothing lost: a frame painted by a request of the bar itself shows the
-                // latest position and message
+                // latest position, length, message and prefix
                 let t = term.transcript();
-                let want = format!("{pos}|{msg}");
+                let want = format!("{pos}|{msg}|{prefix}|{}", len.unwrap_or(pos));
                 if op.k != "mp_println" && !may_not_paint && t.last().map(|s| s.as_str()) != Some(want.as_str()) {
                     r.violate(
                         "C05.stale_frame",
@@ -314,7 +347,7 @@ impl Check for C05 {
         "C05"
     }
     fn rule_text(&self) -> String {
-        "50..400 requests (tick, set_message, update, reset (also right after finish_and_clear) = direct ordinary; inc/set_position = through the position bucket; println/force_draw/mp.println/mp.clear and finishing + dropping sibling bars above the bar under test = forced, excluded from the law) on a target with refresh rate R uniform in 1..=255 or without limiter, standalone or as a MultiProgress target (one run in thirty on a real console::Term over a kernel pty); arrival gaps from a mixture: 0, 1 ns, I±{0,1 ns,1 µs}, k*I±..., 1 ms±1 ns, sub-interval uniform, seconds, hours (I = 1e9/R ns). Laws checked on the recorded paint timestamps: (1) every window of ordinary frames satisfies count <= 20 + R*T + 1 (integer arithmetic), (2) a direct ordinary request arriving >= ceil(1e9/R) ns after the last painted frame is painted, (3) after every position update the last painted frame is younger than ceil(1e9/R) ns + 1 ms, (4) on an unlimited target admitted position updates obey burst 10 / 1 per ms and a position update >= 1 ms after the last admitted one is admitted, (5) every painted frame shows the latest position and message. Non-trivial: >= 3 frames caused by ordinary requests. Distinct = distinct scenario hash.".into()
+        "50..400 requests (tick, set_message, set_prefix, set_length, inc_length, dec_length, unset_length, update, reset (also right after finish_and_clear) = direct ordinary; inc/dec/set_position = through the position bucket; one bar in four starts without a length; println/force_draw/mp.println/mp.clear and finishing + dropping sibling bars above the bar under test = forced, excluded from the law) on a target with refresh rate R uniform in 1..=255 or without limiter, standalone or as a MultiProgress target (one run in thirty on a real console::Term over a kernel pty); arrival gaps from a mixture: 0, 1 ns, I±{0,1 ns,1 µs}, k*I±..., 1 ms±1 ns, sub-interval uniform, seconds, hours (I = 1e9/R ns). Laws checked on the recorded paint timestamps: (1) every window of ordinary frames satisfies count <= 20 + R*T + 1 (integer arithmetic), (2) a direct ordinary request arriving >= ceil(1e9/R) ns after the last painted frame is painted, (3) after every position update the last painted frame is younger than ceil(1e9/R) ns + 1 ms, (4) on an unlimited target admitted position updates obey burst 10 / 1 per ms and a position update >= 1 ms after the last admitted one is admitted, (5) every painted frame shows the latest position, length, message and prefix. Non-trivial: >= 3 frames caused by ordinary requests. Distinct = distinct scenario hash.".into()
     }
     fn assumptions(&self) -> Vec<String> {
         vec!["time is integral nanoseconds on the virtual clock; no steady ticker is installed".into()]
@@ -353,6 +386,7 @@ impl Check for C05 {
         sc.set("hz", hz);
         sc.set("multi", rng.chance(1, 3) as u64);
         sc.set("pty", rng.chance(1, 30) as u64);
+        sc.set("no_len", rng.chance(1, 4) as u64);
         let i = if hz > 0 { 1_000_000_000 / hz } else { 1_000_000 };
         let n = rng.range(50, if tier == Tier::Quick { 250 } else { 400 });
         // per-run mixture weights (swarm)
@@ -382,9 +416,11 @@ impl Check for C05 {
                         ops.push(Op::new("reset"));
                         continue;
                     }
-                    ops.push(match rng.below(10) {
+                    ops.push(match rng.below(12) {
                         0 | 1 => Op::new("inc").n(1),
                         2 => Op::new("update"),
+                        10 => Op::new("inc_length").n(1),
+                        11 => Op::new("set_prefix"),
                         _ => Op::new("tick"),
                     });
                     if rng.chance(1, 6) {
@@ -435,6 +471,20 @@ impl Check for C05 {
                     Op::new("reset")
                 }
             };
+            // one request in six is one of the other setters (ordinary requests, too)
+            let next_op = if rng.chance(1, 6) && !matches!(next_op.k.as_str(), "reset") {
+                match rng.below(7) {
+                    0 => Op::new("set_prefix"),
+                    1 => Op::new("set_length").n(rng.below(2_000_000)),
+                    2 => Op::new("inc_length").n(rng.below(5)),
+                    3 => Op::new("dec_length").n(rng.below(5)),
+                    4 => Op::new("unset_length"),
+                    5 => Op::new("dec").n(rng.below(3)),
+                    _ => Op::new("set_length").n(1_000_000),
+                }
+            } else {
+                next_op
+            };
             ops.push(next_op);
             if rng.chance(1, 12) {
                 ops.push(Op::new("update"));
@@ -448,6 +498,6 @@ impl Check for C05 {
         exec(sc)
     }
     fn shrink_cfg(&self) -> Vec<(&'static str, u64)> {
-        vec![("multi", 0), ("n_sibs", 0), ("pty", 0)]
+        vec![("multi", 0), ("n_sibs", 0), ("pty", 0), ("no_len", 0)]
     }
 }
